@@ -51,7 +51,7 @@
         mk_instant(s, n)
     }
 
-    fn tag(s: &AutoTaskState) -> u8 {
+    pub(crate) fn tag(s: &AutoTaskState) -> u8 {
         match s { AutoTaskState::Idle => 0, AutoTaskState::Pending => 1, AutoTaskState::Failed(_, _) => 2 }
     }
 
@@ -148,7 +148,7 @@
         std::mem::forget(s0); std::mem::forget(s);
     }
 
-    fn any_task_states() -> TaskStates {
+    pub(crate) fn any_task_states() -> TaskStates {
         TaskStates {
             disable_unsolicited: any_state(),
             integrity_scan: any_state(),
